@@ -105,6 +105,32 @@ theorem inv_sleeper_frame {s : St} (h : Inv s) {i : Nat} {sl sl' : Sleeper} (hi 
       exact h.compat i sl hi w hw' j n hj' c kd r hop hcw
     · simp [hik] at hk
       exact h.compat k slk hk w hw j n hj' c kd r hop hcw
+  · -- uniq
+    intro j n hj cd c0 r hop a a' sa sa' ha ha' w hw w' hw' hcd hc hc'
+    have hj' : s.ntf[j]? = some n := hj
+    rw [hget] at ha ha'
+    have back : ∀ (k : Nat) (slk : Sleeper), (if i = k then some sl' else s.slp[k]?) = some slk →
+        ∃ slo, s.slp[k]? = some slo ∧ ∀ w ∈ slk.ops, w ∈ slo.ops := by
+      intro k slk hk
+      by_cases hik : i = k
+      · subst hik; simp at hk; subst hk
+        refine ⟨sl, hi, ?_⟩
+        intro w hw
+        rcases hops with e | e
+        · rw [e] at hw; exact hw
+        · rw [e] at hw; exact List.mem_of_mem_tail hw
+      · simp [hik] at hk; exact ⟨slk, hk, fun _ h => h⟩
+    obtain ⟨so, hso, hsub⟩ := back a sa ha
+    obtain ⟨so', hso', hsub'⟩ := back a' sa' ha'
+    exact h.uniq j n hj' cd c0 r hop a a' so so' hso hso' w (hsub w hw) w' (hsub' w' hw') hcd hc hc'
+  · -- wsv
+    intro x hx
+    show ∃ slx, ({ s with lock := L', waitset := ws', count := c' }.setS i sl').slp[x]? = some slx
+    rw [hget]
+    by_cases hix : i = x
+    · simp [hix]
+    · simp only [hix, if_false]
+      exact h.wsv x ((hws x (fun e => hix e.symm)).mp hx)
 
 
 /-- a step that only changes the sleeper's own record -/
